@@ -37,6 +37,8 @@ def term_source(pid: str, tier: str):
     out += [("SCALE", t) for t in F.scale_terms(tier)]
     out += [("TWICE", t) for t in F.twice_terms(tier)]
     out += [("VANISH", t) for t in F.vanish_terms(tier)]
+    out += [("PLAYER", t) for t in F.param_layer_terms(tier)]
+    out += [("TWINS", t) for t in F.twins_terms(tier)]
     if pid in ("C01", "C02", "C08", "C17"):
         out += [("ARITH", t) for t in F.arith_terms(tier)]
     seen = set()
@@ -52,7 +54,8 @@ def term_source(pid: str, tier: str):
 def source_description(tier):
     return (f"ENUM = {F.enum_describe(tier)}; SKEL (depth-2 skeletons, atoms "
             f"{'8' if tier == 'thorough' else '3'}); NARY (ordered tuples over 19 factor kinds, arity <= "
-            f"{'4' if tier == 'thorough' else '3'})")
+            f"{'4' if tier == 'thorough' else '3'}); PARAM, PLAYER (parameter pairs through one arithmetic layer), NEAR, "
+            "MULTIVAR, BINBIN, NAMES, SCALE, TWICE, TWINS (near-equal operand pairs), VANISH (DESIGN.md 2.2)")
 
 
 def has_repeated_inner(t) -> bool:
